@@ -549,7 +549,12 @@ func (fx *FX) freeVarNames(fr *frame, st *State, fn *ssa.Function, bindings []Va
 func (fx *FX) closureCreated(fr *frame, st *State, t *ssa.MakeClosure, clo *Closure) {
 	fn := t.Fn.(*ssa.Function)
 	c := fx.e.contractFor(fn)
-	if c == nil || (len(c.FreeReq) == 0 && len(c.ClosureInv) == 0 && len(c.ClosureGhost) == 0) {
+	if c != nil {
+		for _, fsm := range c.FrameSeams {
+			fx.usedAssumed["frame seam of "+c.Kind+" "+c.Name+": writes "+fsm[0]+", which the protocol it implements excludes; assumed: "+fsm[1]] = true
+		}
+	}
+	if c == nil || (len(c.FreeReq) == 0 && len(c.CreateReq) == 0 && len(c.ClosureInv) == 0 && len(c.ClosureGhost) == 0) {
 		return
 	}
 	env := fx.newEnv(fr, st)
@@ -564,6 +569,13 @@ func (fx *FX) closureCreated(fr *frame, st *State, t *ssa.MakeClosure, clo *Clos
 	for j, cl := range c.FreeReq {
 		g := fx.evalBool(env, cl.Expr)
 		fx.oblige(st, "pre", fmt.Sprintf("closure(%s).free-requires#%d", fx.e.fnName(fn), j+1), cl.Text, g, t.Pos(), propsOr(cl.Props, c.Props))
+	}
+	for j, cl := range c.CreateReq {
+		env2 := fx.newEnv(fr, st)
+		env2.names = env.names
+		env2.onlyNames = false
+		g := fx.evalBool(env2, cl.Expr)
+		fx.oblige(st, "pre", fmt.Sprintf("closure(%s).creation-requires#%d", fx.e.fnName(fn), j+1), cl.Text, g, t.Pos(), propsOr(cl.Props, c.Props))
 	}
 	for j, cl := range c.ClosureInv {
 		g := fx.evalBool(env, cl.Expr)
